@@ -1,5 +1,5 @@
----------------------------- MODULE QueueTrace ----------------------------
-EXTENDS Queue, Json, IOUtils
+---------------------------- MODULE StackTrace ----------------------------
+EXTENDS Stack, Json, IOUtils
 VARIABLES S, node, err, kf, taint
 T == ndJsonDeserialize(IOEnv.TRACE)
 TOut(s, e)   == Out(s, e.op)
